@@ -705,7 +705,7 @@ unsafe fn get_file_info(
                 *size_needed = needed;
             }
             if buffer_size >= needed {
-                *(buffer as *mut u64) = file_handle.size;
+                (buffer as *mut u64).write_unaligned(file_handle.size);
                 set_last_error(ERROR_SUCCESS);
                 true
             } else {
@@ -719,7 +719,7 @@ unsafe fn get_file_info(
                 *size_needed = needed;
             }
             if buffer_size >= needed {
-                *(buffer as *mut u64) = file_handle.position as u64;
+                (buffer as *mut u64).write_unaligned(file_handle.position as u64);
                 set_last_error(ERROR_SUCCESS);
                 true
             } else {
@@ -751,7 +751,7 @@ unsafe fn get_archive_info(
                 *size_needed = needed;
             }
             if buffer_size >= needed {
-                *(buffer as *mut u64) = header.get_archive_size();
+                (buffer as *mut u64).write_unaligned(header.get_archive_size());
                 set_last_error(ERROR_SUCCESS);
                 true
             } else {
@@ -765,7 +765,7 @@ unsafe fn get_archive_info(
                 *size_needed = needed;
             }
             if buffer_size >= needed {
-                *(buffer as *mut u32) = header.hash_table_size;
+                (buffer as *mut u32).write_unaligned(header.hash_table_size);
                 set_last_error(ERROR_SUCCESS);
                 true
             } else {
@@ -779,7 +779,7 @@ unsafe fn get_archive_info(
                 *size_needed = needed;
             }
             if buffer_size >= needed {
-                *(buffer as *mut u32) = header.block_table_size;
+                (buffer as *mut u32).write_unaligned(header.block_table_size);
                 set_last_error(ERROR_SUCCESS);
                 true
             } else {
@@ -793,7 +793,7 @@ unsafe fn get_archive_info(
                 *size_needed = needed;
             }
             if buffer_size >= needed {
-                *(buffer as *mut u32) = header.sector_size() as u32;
+                (buffer as *mut u32).write_unaligned(header.sector_size() as u32);
                 set_last_error(ERROR_SUCCESS);
                 true
             } else {
